@@ -15,7 +15,7 @@ func init() {
 	Descriptions["C14"] = "C14-encode-ref (the BER tree every control's Encode builds, on every path, equals the published grammar: RFC 4511 4.1.11 Control, RFC 2696 paging value, draft-behera-10 password policy value, draft-vchu-00 warning; the type child is the constant GetControlType returns), " +
 		"C14-roundtrip (for every control type and every encode path the request decoder, interpreted symbolically on the tree that Encode built, returns a control of the same type whose every field comes back from the node that carried it through value-preserving conversions or recognised inverse pairs, and every error branch the decoder takes on the way is decided never to be taken for any value the field types (narrowed by the encode path and the Behera constructor) admit), " +
 		"C14-attach (responses put encodeControls(r.controls) at envelope child [2] in slice order; requests decode envelope child [2] element by element in order - on every successful path of a well-formed message that has the third envelope child), " +
-		"C14-behera (truth table of NewControlBeheraPasswordPolicy: success => at most one of grace/expire/error set and error <= 8; fields come from the three options). Run-time value equality is not decided beyond identity data flow."
+		"C14-fresh (every control decodeControl returns is allocated by that call or by a constructor of the module, never taken from a table or a cache), C14-behera (truth table of NewControlBeheraPasswordPolicy: success => at most one of grace/expire/error set and error <= 8; fields come from the three options). Run-time value equality is not decided beyond identity data flow."
 }
 
 // encodeRef: expected shapes per control type and valuation signature.
@@ -247,6 +247,79 @@ func checkC14(c *Ctx) {
 				R.OK("C14-attach", key, c.P.Pos(nm.Pos()), sprintf("%d successful paths with the third envelope child present, all end with %s", n3[typ], ctlList))
 			}
 		}
+	}
+
+	// ---- C14-fresh: what the handler of one request receives is not changed by decoding another request: every control
+	// decodeControl returns is an object allocated by that call (directly or by a constructor of the module), never a
+	// value kept in a package-level variable, a table or a cache - control types have exported, settable fields, so a
+	// shared instance is changed under the handlers that hold it
+	if dc := c.fn(G, "decodeControl"); dc != nil {
+		var fresh func(v ssa.Value, depth int) (bool, string)
+		fresh = func(v ssa.Value, depth int) (bool, string) {
+			if depth > 4 {
+				return false, "too deep"
+			}
+			v = an.Strip(v)
+			if mi, ok := v.(*ssa.MakeInterface); ok {
+				return fresh(mi.X, depth)
+			}
+			switch x := v.(type) {
+			case *ssa.Alloc:
+				if x.Heap {
+					return true, ""
+				}
+			case *ssa.Const:
+				if x.IsNil() {
+					return true, ""
+				}
+			case *ssa.Phi:
+				for _, e := range x.Edges {
+					if ok, why := fresh(e, depth+1); !ok {
+						return false, why
+					}
+				}
+				return true, ""
+			case *ssa.Extract:
+				if call, ok := x.Tuple.(*ssa.Call); ok {
+					if g := an.StaticCallee(call.Common()); g != nil && an.InModule(g) && len(g.Blocks) > 0 {
+						for _, ret := range an.Returns(g) {
+							res := an.ReturnResults(ret)
+							if x.Index >= len(res) {
+								return false, "result of " + fname(g)
+							}
+							if ok, why := fresh(res[x.Index], depth+1); !ok {
+								return false, why
+							}
+						}
+						return true, ""
+					}
+				}
+			case *ssa.Call:
+				if g := an.StaticCallee(x.Common()); g != nil && an.InModule(g) && len(g.Blocks) > 0 && g.Signature.Results().Len() == 1 {
+					for _, ret := range an.Returns(g) {
+						if ok, why := fresh(an.ReturnResults(ret)[0], depth+1); !ok {
+							return false, why
+						}
+					}
+					return true, ""
+				}
+			}
+			return false, an.Path(v)
+		}
+		okAll, why, at := true, "", ""
+		n := 0
+		for _, ret := range an.Returns(dc) {
+			res := an.ReturnResults(ret)
+			if len(res) == 0 {
+				continue
+			}
+			n++
+			if ok, w := fresh(res[0], 0); !ok {
+				okAll, why, at = false, w, c.pos(ret)
+			}
+		}
+		R.Check(okAll && n > 0, "C14-fresh", "decodeControl: every decoded control is an object of its own", c.P.Pos(dc.Pos()), sprintf("%d returns: each control is allocated by the call that decodes it", n),
+			"decodeControl can return a control that is not allocated by the call ("+why+" at "+at+"): a shared or cached instance is changed by a later decode, or by a handler, under the handlers that hold it")
 	}
 
 	// ---- C14-behera
